@@ -19,7 +19,8 @@ MANIFEST = dict(
               'str -> parse_vec_str -> float() -> % 360 % 360 for whole angles and vectors; frame + heap/alias theorems for frozen values and '
               'copies; slot-transfer model for the VALUE of a copy) + fail-closed, semantically normalising ast census of math.py (store '
               'sites, angle creations, format/parse pipelines by return-path enumeration, mutation events, result kinds of every public '
-              'method, symbolic run of every copy-like method) + vm_compute correspondences (bit-exact / string-exact / parse results / '
+              'method, symbolic run of every copy-like method; the sets of names the census relies on - methods that build a new object, methods that '
+              'write their receiver or argument - are least fixpoints computed from the source, private helpers are recognised by form) + vm_compute correspondences (bit-exact / string-exact / parse results / '
               'frames / result aliasing / copied slots bit for bit) + history search',
     text='Theorems in Props/C05.v. (a) For EVERY finite binary64 x the executable Flocq model of x % 360.0 % 360.0 is finite and in [0,360) (a '
          'single % reaches exactly 360.0, witness -1e-14), is the identity on [0,360) and subtracts exactly 360 on [360,720); hence, if every '
